@@ -765,3 +765,25 @@ Proof.
          (mk_inst 0 0 true false), (mk_inst 1 0 true false).
   split; [reflexivity|]. split; [vm_compute; auto|]. split; [vm_compute; auto|discriminate].
 Qed.
+
+(* ---------- several daemons: each one behaves as if it were alone ---------- *)
+Lemma run_hist_snoc' sh w modes h e s :
+  run_hist sh w modes (h ++ [e]) s =
+  (fst (step_ev sh w modes e (fst (run_hist sh w modes h s))),
+   snd (run_hist sh w modes h s) ++ [(e, snd (step_ev sh w modes e (fst (run_hist sh w modes h s))))]).
+Proof.
+  unfold run_hist. rewrite fold_left_app. cbn [fold_left].
+  destruct (step_ev sh w modes e _) as [s' o]. reflexivity.
+Qed.
+
+Theorem daemons_independent sh (w : nat -> world) modes (h : list (nat * event)) (d : nat) :
+  mrun sh w modes h d = run_hist sh (w d) modes (proj d h) st0.
+Proof.
+  induction h as [|[d' e] h IH] using rev_ind; [reflexivity|].
+  unfold mrun. rewrite fold_left_app. cbn [fold_left]. fold (mrun sh w modes h).
+  unfold proj. rewrite filter_app, map_app. cbn [filter fst snd]. fold (proj d h).
+  unfold mstep. cbn [fst snd].
+  destruct (Nat.eqb_spec d' d) as [->|Hne].
+  - rewrite Nat.eqb_refl. cbn [map]. rewrite run_hist_snoc'. rewrite IH. reflexivity.
+  - destruct (Nat.eqb_spec d d') as [Heq|_]; [congruence|]. cbn [map]. rewrite app_nil_r. exact IH.
+Qed.
